@@ -301,3 +301,40 @@ template <class T, size_t N> void op_raw_inverse_det(Ctx &c) {
 
 } // namespace memsim
 #endif
+
+// ---- additional families (appended): cross products, cofactor/adjoint, three-operand networks, 4-D contraction, log/abs determinants
+namespace memsim {
+template <class T> void op_cross3(Ctx &c) {
+    auto &a = c.own<Tensor<T, 3>>(0, false); auto &b = c.own<Tensor<T, 3>>(1, false); auto &o = c.own<Tensor<T, 3>>(2, true);
+    auto &A2 = c.own<Tensor<T, 3, 3>>(3, false); auto &o2 = c.own<Tensor<T, 3, 3>>(4, true);
+    c.run([&] { o = cross(a, b); o2 = cross(A2, A2); });
+}
+template <class T> void op_cross2(Ctx &c) {
+    auto &a = c.own<Tensor<T, 2>>(0, false); auto &b = c.own<Tensor<T, 2>>(1, false); auto &o = c.own<Tensor<T, 3>>(2, true);
+    c.run([&] { o = cross(a, b); });
+}
+template <class T, size_t N> void op_cof_adj(Ctx &c) {
+    auto &a = c.own_dd<Tensor<T, N, N>>(0, false); auto &o = c.own<Tensor<T, N, N>>(1, true); auto &o2 = c.own<Tensor<T, N, N>>(2, true);
+    T r[2] = {0, 0};
+    c.run([&] { o = cofactor(a); o2 = adjoint(a); r[0] = absdet(a); r[1] = logdet(a); });
+    c.retb(r, sizeof r);
+}
+template <class T, size_t M, size_t K, size_t N, size_t P> void op_einsum_chain(Ctx &c) {
+    auto &a = c.own<Tensor<T, M, K>>(0, false); auto &b = c.own<Tensor<T, K, N>>(1, false); auto &d = c.own<Tensor<T, N, P>>(2, false); auto &o = c.own<Tensor<T, M, P>>(3, true);
+    enum { i, j, k, l };
+    c.run([&] { o = einsum<Index<i, j>, Index<j, k>, Index<k, l>>(a, b, d); });
+}
+template <class T, size_t M, size_t N> void op_contract4(Ctx &c) {
+    auto &a = c.own<Tensor<T, M, N, M, N>>(0, false); auto &b = c.own<Tensor<T, M, N>>(1, false); auto &o = c.own<Tensor<T, M, N>>(2, true);
+    T r = 0;
+    enum { i, j, k, l };
+    c.run([&] { o = einsum<Index<i, j, k, l>, Index<k, l>>(a, b); r = inner(o, b); });
+    c.retv(r);
+}
+template <class T, size_t N> void op_det_strategies(Ctx &c) {
+    auto &a = c.own_dd<Tensor<T, N, N>>(0, false);
+    T r[2] = {0, 0};
+    c.run([&] { r[0] = determinant<DetCompType::LU>(a); r[1] = determinant<DetCompType::QR>(a); });
+    c.retb(r, sizeof r);
+}
+} // namespace memsim
